@@ -27,12 +27,20 @@
 (*   |J^T v_d - J^T v0| <= sqrt(d) s |v0| <= sqrt(reg_eps tr G) |v0|        *)
 (*   (s^2 <= tr G).  UPGrad: sum of the m bounds (triangle inequality).     *)
 (*                                                                         *)
+(* BADLY SCALED family (C04, section at the end): J = D_r J0 D_c with rows  *)
+(* and columns scaled by powers of eps = 2^-P carried symbolically          *)
+(* (EpsScale.tla); the model decides exactly, for all P >= needP at once,   *)
+(* the bracket of sigma_max^2, the squared distance d2 of the hull of the   *)
+(* rows to the origin (MGDA's min-norm value; d2 = 0 <=> Pareto-stationary) *)
+(* and exports the instance; on unscaled instances the symbolic analysis    *)
+(* must coincide with MinNorm's integer one (BSRefinesMinNorm).             *)
+(*                                                                         *)
 (* State machine: a matrix of the family is built entry by entry (so that   *)
 (* TLC's workers share the enumeration), then one Solve step computes the   *)
 (* result record `res`; invariants are stated on `res`; Export prints the   *)
 (* scenario with the expected results for the replay on the real code.      *)
 (***************************************************************************)
-EXTENDS MinNorm, TLC, Json
+EXTENDS MinNorm, EpsScale, TLC, Json, IOUtils
 
 CONSTANTS Family,     \* set of records [m, n, e]: all m x n matrices with entries in -e..e
           FWK,        \* Frank-Wolfe depth checked in the model (0 = none)
@@ -162,7 +170,27 @@ Compute(f, es) ==
          mnOK |-> MinNormWellDefined(G), mn2 |-> MinNormSq(G),
          fw |-> [K \in 1..FWK |-> FWReach(G, K)]]
 
-Init == fam \in Family /\ ents = <<>> /\ phase = "build" /\ res = <<>>
+\* ---- badly scaled family: which shapes are enumerated (overridden in MC_DualCone_bs_*.cfg); a matrix J0 of
+\* shape f is kept iff (Hash(entries) + SamplePick) % f.mod = 0, and then analysed with EVERY admissible scaling
+BSFam         == {}
+BSFamNone     == {}
+BSFamQuick    == {[m |-> 2, n |-> 2, e |-> 2, mod |-> 4], [m |-> 2, n |-> 3, e |-> 1, mod |-> 16],
+                  [m |-> 3, n |-> 2, e |-> 2, mod |-> 192], [m |-> 3, n |-> 3, e |-> 1, mod |-> 192]}
+BSFamThorough == {[m |-> 2, n |-> 2, e |-> 2, mod |-> 1], [m |-> 2, n |-> 3, e |-> 1, mod |-> 1],
+                  [m |-> 3, n |-> 2, e |-> 1, mod |-> 2], [m |-> 3, n |-> 2, e |-> 2, mod |-> 24],
+                  [m |-> 3, n |-> 3, e |-> 1, mod |-> 24]}
+\* instances listed by the harness (seeded random ones, any pattern of scaled rows / columns): IOEnv.BS_FILE
+BSFile        == FALSE
+BSFileOn      == TRUE
+BSFileInsts   == IF BSFile THEN LET s == JsonDeserialize(IOEnv.BS_FILE) IN {s[x] : x \in DOMAIN s} ELSE {}
+
+Init == \/ fam \in Family /\ ents = <<>> /\ phase = "build" /\ res = <<>>
+        \/ fam \in BSFam /\ ents = <<>> /\ phase = "bsbuild" /\ res = <<>>
+        \/ \E x \in BSFileInsts :
+              /\ fam = [m |-> Len(x.J0), n |-> Len(x.J0[1]), e |-> 0, mod |-> 1]
+              /\ ents = [k \in 1..(Len(x.J0) * Len(x.J0[1])) |->
+                           x.J0[((k - 1) \div Len(x.J0[1])) + 1][((k - 1) % Len(x.J0[1])) + 1]]
+              /\ phase = "bsfile" /\ res = [rho |-> x.rho, gam |-> x.gam]
 
 Extend == /\ phase = "build" /\ Len(ents) < fam.m * fam.n
           /\ \E x \in (0 - fam.e)..fam.e : ents' = Append(ents, x)
@@ -173,7 +201,23 @@ Solve == /\ phase = "build" /\ Len(ents) = fam.m * fam.n
          /\ res' = Compute(fam, ents)
          /\ UNCHANGED <<fam, ents>>
 
-Next == Extend \/ Solve
+BSExtend == /\ phase = "bsbuild" /\ Len(ents) < fam.m * fam.n
+            /\ \E x \in (0 - fam.e)..fam.e : ents' = Append(ents, x)
+            /\ UNCHANGED <<fam, phase, res>>
+
+\* every scaling of a kept matrix: scaled rows / columns last, at least one row and one column unscaled; the
+\* unscaled instance is analysed too (refinement check against MinNorm, not exported)
+BSSolve == /\ phase = "bsbuild" /\ Len(ents) = fam.m * fam.n
+           /\ (Hash(ents) + SamplePick) % fam.mod = 0
+           /\ \E r \in EsStep(fam.m), g \in EsStep(fam.n) :
+                 res' = EsAnalyse([J0 |-> MatOf(fam, ents), rho |-> r, gam |-> g])
+           /\ phase' = "bsdone" /\ UNCHANGED <<fam, ents>>
+
+BSSolveFile == /\ phase = "bsfile"
+               /\ res' = EsAnalyse([J0 |-> MatOf(fam, ents), rho |-> res.rho, gam |-> res.gam])
+               /\ phase' = "bsdone" /\ UNCHANGED <<fam, ents>>
+
+Next == Extend \/ Solve \/ BSExtend \/ BSSolve \/ BSSolveFile
 Spec == Init /\ [][Next]_vars
 
 Done  == phase = "done"
@@ -256,4 +300,44 @@ Scenario == [m |-> fam.m, n |-> fam.n, J |-> res.J, tr |-> res.tr, lamLo |-> res
              cmp |-> ScaleCmp(res.lamLo), f2 |-> res.f2, f1 |-> res.f1, mn2 |-> res.mn2]
 
 Export == (Done /\ Hash(ents) % SampleMod = SamplePick) => PrintT(<<"SCN", ToJson(Scenario)>>)
+
+-----------------------------------------------------------------------------
+(* Badly scaled family: what TLC checks about the symbolic analysis (all     *)
+(* comparisons by the sign rule of EpsScale, i.e. for every small enough eps)*)
+
+BSDone     == phase = "bsdone"
+BSUnscaled == (\A i \in 1..fam.m : res.rho[i] = 0) /\ (\A j \in 1..fam.n : res.gam[j] = 0)
+BSG        == EsGram([J0 |-> res.J0, rho |-> res.rho, gam |-> res.gam])
+
+\* the hull's squared distance to the origin d2 = d2num / d2den: well defined (enumerated instances: every KKT
+\* certificate gives the same rational function), 0 <= d2 <= |row_i|^2 and d2 <= |mean row|^2
+BSMinNormOK ==
+    BSDone => /\ PSign(res.d2den) > 0 /\ PSign(res.d2num) >= 0
+              /\ (fam.e > 0 => EsWellDefined(BSG))
+              /\ \A i \in 1..fam.m : PSign(PSub(PMul(BSG[i][i], res.d2den), res.d2num)) >= 0
+              /\ PSign(PSub(PMul(res.total, res.d2den), PScale(fam.m * fam.m, res.d2num))) >= 0
+              /\ res.stationary = (res.d2num = <<>>)
+\* (k-1) T/16 <= sigma_max^2 < k T/16:  consistent with  max_i G_ii <= sigma_max^2  and  T/m <= sigma_max^2 <= T
+BSBracketSound ==
+    (BSDone /\ res.tr # <<>>) =>
+        /\ res.lamK \in 2..17 /\ res.lamK * fam.m > 16
+        /\ \A i \in 1..fam.m : PSign(PSub(PScale(res.lamK, res.tr), PScale(16, BSG[i][i]))) > 0
+\* a zero row, or two opposite rows with the same scaling, make the instance stationary; rows in an open half
+\* space (one row has a positive inner product with all) do not
+BSStationaryObvious ==
+    BSDone => /\ ((\E i \in 1..fam.m : BSG[i][i] = <<>>) => res.stationary)
+              /\ ((\E i, k \in 1..fam.m : res.rho[i] = res.rho[k] /\ BSG[i][i] # <<>>
+                                           /\ \A j \in 1..fam.n : res.J0[i][j] = 0 - res.J0[k][j]) => res.stationary)
+              /\ ((\E i \in 1..fam.m : \A k \in 1..fam.m : PSign(BSG[i][k]) > 0) => ~res.stationary)
+\* REFINEMENT: without scaling every polynomial is a constant and the analysis is MinNorm's integer one
+BSRefinesMinNorm ==
+    (BSDone /\ BSUnscaled /\ res.tr # <<>>) =>
+        LET G == Gram(res.J0)
+            L == LamFloor(G)
+        IN  /\ res.needP = 1 /\ Len(res.d2den) = 1 /\ Len(res.d2num) <= 1 /\ res.tr = <<ITrace(G)>>
+            /\ Frac(PCoef(res.d2num, 0), res.d2den[1]) = MinNormSq(G)
+            /\ (res.lamK - 1) * ITrace(G) < 16 * (L + 1) /\ 16 * L < res.lamK * ITrace(G)
+            /\ res.conflict = Conflict(G)
+
+BSExport == (BSDone /\ ~BSUnscaled) => PrintT(<<"BSCN", ToJson(res)>>)
 =============================================================================
